@@ -1593,13 +1593,16 @@ package gorums
 // NewRawConfiguration dispatches on the option's dynamic type. NodeListOption has an unexported
 // method, so its implementers are exactly the option types of this package: the call is checked
 // once per implementer, each against ITS OWN contract (closed-world dispatch, /verif/DESIGN.md 2.3).
-// The precondition states per option type what that type's constructor needs; WithNewNodes options
-// (addNodes, which resolves a nested option first) are outside it - see (addNodes).newConfig.
+// The precondition states per option type what that type's constructor needs (for WithNewNodes: a
+// leaf option nested in it - see (addNodes).newConfig).
 //@ func NewRawConfiguration
 //@   props C14
 //@   requires mgr != nil && mgr.lookup != nil
 //@   requires forall(id, in(id, mgr.lookup) ==> mgr.lookup[id] != nil && mgr.lookup[id].id == id)
-//@   requires !typeis(opt, "*addNodes") && !typeis(opt, "addNodes") && !typeis(opt, "addConfig")
+//@   requires !typeis(opt, "addNodes") && !typeis(opt, "addConfig")
+//@   requires typeis(opt, "*addNodes") && opt.(*addNodes) != nil ==> len(opt.(*addNodes).old) > 0 && \
+//@            forall(k, 0, len(opt.(*addNodes).old), opt.(*addNodes).old[k] != nil) && base(opt.(*addNodes).old) != base(mgr.nodes) && \
+//@            ((typeis(opt.(*addNodes).new, "*nodeList") && opt.(*addNodes).new.(*nodeList) != nil) || (typeis(opt.(*addNodes).new, "*nodeIDMap") && opt.(*addNodes).new.(*nodeIDMap) != nil) || (typeis(opt.(*addNodes).new, "*nodeIDs") && opt.(*addNodes).new.(*nodeIDs) != nil))
 //@   requires typeis(opt, "*addConfig") && opt.(*addConfig) != nil ==> len(opt.(*addConfig).old) > 0 && \
 //@            forall(k, 0, len(opt.(*addConfig).old), opt.(*addConfig).old[k] != nil) && forall(k, 0, len(opt.(*addConfig).add), opt.(*addConfig).add[k] != nil) && \
 //@            base(opt.(*addConfig).old) != base(mgr.nodes) && base(opt.(*addConfig).add) != base(mgr.nodes) && \
@@ -1608,6 +1611,38 @@ package gorums
 //@   ensures[C14.e] err == nil ==> len(nodes) > 0
 //@   ensures[C14.a] err == nil ==> forall(i, 0, len(nodes), nodes[i] != nil) && forall(i, 0, len(nodes), forall(j, 0, len(nodes), i < j ==> nodes[i].id < nodes[j].id))
 //@   ensures[C14.f] mgr.lookup != nil && forall(id, in(id, mgr.lookup) ==> mgr.lookup[id] != nil && mgr.lookup[id].id == id)
+
+// WithNewNodes: the nested option is resolved first (closed-world dispatch, each option type against its
+// own contract), then united with the old configuration by (addConfig).newConfig, whose preconditions -
+// operands non-nil, distinct from the pool's array - must survive the nested constructor: that is what the
+// constructors' frames (only the pool's array and fresh arrays are written; results are fresh) are for.
+// The verified precondition takes the nested option to be a leaf (WithNodeList/WithNodeMap/WithNodeIDs).
+//@ func (addNodes).newConfig
+//@   props C14 C15
+//@   nopanic C14
+//@   requires mgr != nil && mgr.lookup != nil && len(o.old) > 0
+//@   requires forall(id, in(id, mgr.lookup) ==> mgr.lookup[id] != nil && mgr.lookup[id].id == id)
+//@   requires forall(k, 0, len(o.old), o.old[k] != nil) && base(o.old) != base(mgr.nodes) && wasalloc(base(o.old))
+//@   requires (typeis(o.new, "*nodeList") && o.new.(*nodeList) != nil) || (typeis(o.new, "*nodeIDMap") && o.new.(*nodeIDMap) != nil) || (typeis(o.new, "*nodeIDs") && o.new.(*nodeIDs) != nil)
+//@   ghost inner Slice = nilslice()
+//@   ghost united Bool = false
+//@   ghost innerFailed Bool = false
+//@   on call "o.new.newConfig"
+//@     assert[C14.b] arg0 == mgr && !united
+//@     after set inner = res0
+//@     after set innerFailed = (res1 != nil)
+//@   on call "ac.newConfig"
+//@     assert[C14.b] recv.old == o.old && recv.add == inner && arg0 == mgr && !united
+//@     set united = true
+//@   ensures[C14.b] err == nil ==> united && !innerFailed
+//@   ensures[C14.e] err == nil ==> len(nodes) > 0
+//@   ensures[C14.e] err != nil ==> len(nodes) == 0
+//@   ensures[C14.a] err == nil ==> forall(i, 0, len(nodes), nodes[i] != nil) && forall(i, 0, len(nodes), forall(j, 0, len(nodes), i < j ==> nodes[i].id < nodes[j].id))
+//@   ensures[C14.d] forall(k, 0, cap(o.old), o.old[k] == old(o.old[k]))
+//@   ensures[C14.f] mgr.lookup != nil && forall(id, in(id, mgr.lookup) ==> mgr.lookup[id] != nil && mgr.lookup[id].id == id)
+//@   ensures[C14.d] base(mgr.nodes) == old(base(mgr.nodes)) || !wasalloc(base(mgr.nodes))
+//@   ensures[C14.d] forall(b, forall(k, b != old(base(mgr.nodes)) && wasalloc(b) ==> elems("*RawNode")[b][k] == old(elems("*RawNode")[b][k])))
+//@   ensures[C14.d] err == nil ==> !wasalloc(base(nodes)) && base(nodes) != base(mgr.nodes)
 
 // And: union of two configurations (C14.b), duplicates removed through the id set m,
 // sorted by id. Ghosts: T = the temporary slice append(o.old, o.add...) that is ranged
@@ -1628,6 +1663,8 @@ package gorums
 //@     after set pos = store(pos, at(T, "*RawNode", idx - 1).id, len(res) - 1)
 //@     after set src = store(src, len(res) - 1, idx - 1)
 //@   loop "for _, n := range append"
+//@     invariant[C14.d] !wasalloc(base(nodes)) && mgr.nodes == old(mgr.nodes)
+//@     invariant[C14.d] forall(b, forall(k, wasalloc(b) ==> elems("*RawNode")[b][k] == old(elems("*RawNode")[b][k])))
 //@     invariant len(T) == len(o.old) + len(o.add) && rangelen == len(T) && base(nodes) != base(T) && base(nodes) != 0
 //@     invariant base(nodes) != base(o.old) && base(nodes) != base(o.add) && base(nodes) != base(mgr.nodes) && base(T) != base(mgr.nodes)
 //@     invariant forall(k, 0, len(o.old), at(T, "*RawNode", k) == old(o.old[k]))
@@ -1665,6 +1702,8 @@ package gorums
 //@   ensures[C14.a] forall(i, 0, len(nodes), nodes[i] != nil) && forall(i, 0, len(nodes), forall(j, 0, len(nodes), i < j ==> nodes[i].id < nodes[j].id))
 //@   ensures[C14.d] forall(k, 0, len(o.old), o.old[k] == old(o.old[k])) && forall(k, 0, len(o.add), o.add[k] == old(o.add[k]))
 //@   ensures[C14.d] forall(k, len(o.old), cap(o.old), o.old[k] == old(o.old[k]))
+//@   ensures[C14.d] mgr.nodes == old(mgr.nodes) && !wasalloc(base(nodes)) && base(nodes) != base(mgr.nodes)
+//@   ensures[C14.d] forall(b, forall(k, b != old(base(mgr.nodes)) && wasalloc(b) ==> elems("*RawNode")[b][k] == old(elems("*RawNode")[b][k])))
 // (C14.b: "nodes are exactly the operands' nodes, each id once" is proved for the list handed
 // to the final sort - the assertions after mgr.sortNodes above; the final sort permutes
 // that list (trusted sort.Sort contract), which the sortedness proof below relies on too.)
@@ -1689,6 +1728,8 @@ package gorums
 //@   on call "mgr.Node"
 //@     set want = store(want, arg0, true)
 //@   loop "for _, id := range o.nodeIDs"
+//@     invariant[C14.d] !wasalloc(base(nodes)) && (base(mgr.nodes) == old(base(mgr.nodes)) || !wasalloc(base(mgr.nodes)))
+//@     invariant[C14.d] forall(b, forall(k, b != old(base(mgr.nodes)) && wasalloc(b) ==> elems("*RawNode")[b][k] == old(elems("*RawNode")[b][k])))
 //@     invariant base(nodes) != 0 && base(nodes) != base(o.nodeIDs) && base(nodes) != base(mgr.nodes) && mgr.lookup == old(mgr.lookup)
 //@     invariant forall(id, in(id, mgr.lookup) <==> old(in(id, mgr.lookup)))
 //@     invariant forall(id, in(id, mgr.lookup) ==> mgr.lookup[id] != nil && mgr.lookup[id].id == id)
@@ -1715,6 +1756,9 @@ package gorums
 //@   ensures[C14.a] err == nil ==> forall(i, 0, len(nodes), nodes[i] != nil) && forall(i, 0, len(nodes), forall(j, 0, len(nodes), i < j ==> nodes[i].id < nodes[j].id))
 //@   ensures[C14.f] mgr.lookup != nil && forall(id, in(id, mgr.lookup) ==> mgr.lookup[id] != nil && mgr.lookup[id].id == id)
 //@   ensures[C14.d] forall(k, 0, len(o.nodeIDs), o.nodeIDs[k] == old(o.nodeIDs[k]))
+//@   ensures[C14.d] base(mgr.nodes) == old(base(mgr.nodes)) || !wasalloc(base(mgr.nodes))
+//@   ensures[C14.d] forall(b, forall(k, b != old(base(mgr.nodes)) && wasalloc(b) ==> elems("*RawNode")[b][k] == old(elems("*RawNode")[b][k])))
+//@   ensures[C14.d] err == nil ==> !wasalloc(base(nodes)) && base(nodes) != base(mgr.nodes)
 
 // WithNodeList: one node per distinct address, carrying that address; an address whose
 // generated id is registered for a different address is rejected (C14.g).
@@ -1724,6 +1768,8 @@ package gorums
 //@   requires mgr != nil && mgr.lookup != nil
 //@   requires forall(id, in(id, mgr.lookup) ==> mgr.lookup[id] != nil && mgr.lookup[id].id == id)
 //@   loop "for _, naddr := range o.addrsList"
+//@     invariant[C14.d] !wasalloc(base(nodes)) && (base(mgr.nodes) == old(base(mgr.nodes)) || !wasalloc(base(mgr.nodes)))
+//@     invariant[C14.d] forall(b, forall(k, b != old(base(mgr.nodes)) && wasalloc(b) ==> elems("*RawNode")[b][k] == old(elems("*RawNode")[b][k])))
 //@     invariant base(nodes) != 0 && base(nodes) != base(o.addrsList) && base(nodes) != base(mgr.nodes) && mgr.lookup != nil
 //@     invariant forall(id, in(id, mgr.lookup) ==> mgr.lookup[id] != nil && mgr.lookup[id].id == id)
 //@     invariant forall(i, 0, len(nodes), nodes[i] != nil)
@@ -1747,6 +1793,9 @@ package gorums
 //@   ensures[C14.a] err == nil ==> forall(i, 0, len(nodes), nodes[i] != nil) && forall(i, 0, len(nodes), forall(j, 0, len(nodes), i < j ==> nodes[i].id < nodes[j].id))
 //@   ensures[C14.f] mgr.lookup != nil && forall(id, in(id, mgr.lookup) ==> mgr.lookup[id] != nil && mgr.lookup[id].id == id)
 //@   ensures[C14.d] forall(k, 0, len(o.addrsList), o.addrsList[k] == old(o.addrsList[k]))
+//@   ensures[C14.d] base(mgr.nodes) == old(base(mgr.nodes)) || !wasalloc(base(mgr.nodes))
+//@   ensures[C14.d] forall(b, forall(k, b != old(base(mgr.nodes)) && wasalloc(b) ==> elems("*RawNode")[b][k] == old(elems("*RawNode")[b][k])))
+//@   ensures[C14.d] err == nil ==> !wasalloc(base(nodes)) && base(nodes) != base(mgr.nodes)
 
 // Except / WithoutNodes: the ids of c that are not removed, in c's order (C14.b); the
 // result is resolved by (nodeIDs).newConfig above. Ghost src[j] = index in c of keepIDs[j];
@@ -1829,6 +1878,8 @@ package gorums
 //@   requires mgr != nil && mgr.lookup != nil
 //@   requires forall(id, in(id, mgr.lookup) ==> mgr.lookup[id] != nil && mgr.lookup[id].id == id)
 //@   loop "for naddr, id := range o.idMap"
+//@     invariant[C14.d] !wasalloc(base(nodes)) && (base(mgr.nodes) == old(base(mgr.nodes)) || !wasalloc(base(mgr.nodes)))
+//@     invariant[C14.d] forall(b, forall(k, b != old(base(mgr.nodes)) && wasalloc(b) ==> elems("*RawNode")[b][k] == old(elems("*RawNode")[b][k])))
 //@     invariant base(nodes) != 0 && base(nodes) != base(mgr.nodes) && mgr.lookup != nil
 //@     invariant forall(id, in(id, mgr.lookup) ==> mgr.lookup[id] != nil && mgr.lookup[id].id == id)
 //@     invariant forall(i, 0, len(nodes), nodes[i] != nil)
@@ -1849,6 +1900,9 @@ package gorums
 //@   ensures[C14.e] err == nil ==> len(nodes) > 0
 //@   ensures[C14.a] err == nil ==> forall(i, 0, len(nodes), nodes[i] != nil) && forall(i, 0, len(nodes), forall(j, 0, len(nodes), i < j ==> nodes[i].id < nodes[j].id))
 //@   ensures[C14.f] mgr.lookup != nil && forall(id, in(id, mgr.lookup) ==> mgr.lookup[id] != nil && mgr.lookup[id].id == id)
+//@   ensures[C14.d] base(mgr.nodes) == old(base(mgr.nodes)) || !wasalloc(base(mgr.nodes))
+//@   ensures[C14.d] forall(b, forall(k, b != old(base(mgr.nodes)) && wasalloc(b) ==> elems("*RawNode")[b][k] == old(elems("*RawNode")[b][k])))
+//@   ensures[C14.d] err == nil ==> !wasalloc(base(nodes)) && base(nodes) != base(mgr.nodes)
 
 // ---------------------------------------------------------------- small load-bearing pieces
 //
